@@ -288,6 +288,8 @@ def _rand_seg(P, r, scale):
         rad = complex(r.uniform(0.2, 3), r.uniform(0.2, 3)) * scale
         if shape in ('collinear', 'repeated'):
             rad = complex(rad.real, rad.real)
+        if shape in ('axis', 'loop'):     # nearly circular: the radii differ by a relative 1e-9 .. 1e-5
+            rad = complex(rad.real, rad.real * (1 + r.choice([1, -1]) * r.choice([1e-9, 2e-6, 9e-6])))
         if shape == 'foldback':
             rad = complex(rad.real, rad.real * r.choice([1e-2, 30]))
         rot = r.choice([0, 0, r.uniform(-180, 180)])
@@ -473,6 +475,17 @@ def sample(ctx, budget=1.0, hint=None, broken=None):
                     warnings.simplefilter('ignore')
                     kind, shape, seg, ps = _rand_seg(P, r, 1)
                 segs.append(seg)
+            if r.random() < 0.35:
+                # two DIFFERENT segments with EQUAL hash in one path (CPython: hash(-1.0) == hash(-2.0)), on a small lattice:
+                # a legal input on which anything keyed by hash(segment) goes wrong
+                a_, b_ = complex(r.randint(-2, 2), r.randint(-2, 2)), complex(r.randint(0, 2), -1)
+                tw = lambda z: complex(z.real, -2) if z.imag == -1 else z
+                mk_ = r.choice([lambda *q: P.Line(q[0], q[1]), lambda *q: P.QuadraticBezier(q[0], q[2], q[1]),
+                                lambda *q: P.CubicBezier(q[0], q[2], q[3], q[1])])
+                c1_, c2_ = complex(r.randint(-2, 2), r.randint(1, 2)), complex(r.randint(-2, 2), 2)
+                if a_ != b_ and a_ != tw(b_):
+                    segs += [mk_(a_, b_, c1_, c2_), mk_(a_, tw(b_), c1_, c2_)]
+                    r.shuffle(segs)
             path = P.Path(*segs)
             n_eval += 1
             with warnings.catch_warnings():
